@@ -906,15 +906,16 @@ def execute(world, schedule, variant):
     return c, res_oracle(schedule, c, wl), res_obs(c), res_trans(c)
 
 
-def verdict_keys(world, schedule, variant):
-    """Violated keys of a (sub-)schedule, memoised per worker process."""
-    k = (world, schedule, variant)
+def verdict_keys(world, schedule):
+    """Violated keys of a (sub-)schedule under ANY of its variants, memoised per worker process."""
+    k = (world, schedule)
     v = _VERDICTS.get(k)
     if v is None:
-        if world == "network" and variant not in net_modes(schedule):
-            variant = "lo"
-        _c, viol, _o, _t = execute(world, schedule, variant)
-        v = _VERDICTS[k] = frozenset(key for key, _d in viol)
+        keys = set()
+        for variant in variants(world, schedule):
+            _c, viol, _o, _t = execute(world, schedule, variant)
+            keys.update(key for key, _d in viol)
+        v = _VERDICTS[k] = frozenset(keys)
     return v
 
 
@@ -925,8 +926,14 @@ def sub_schedules(schedule):
             yield tuple(schedule[i] for i in idx)
 
 
-def is_minimal(world, schedule, variant, key):
-    return not any(key in verdict_keys(world, sub, variant) for sub in sub_schedules(schedule))
+def is_minimal(world, schedule, key):
+    """No proper sub-schedule (under any variant) already shows the violated key.  A sub-schedule made only of
+    cancelled faults that shows ANY violation (a cancelled fault took effect) explains every key."""
+    for sub in sub_schedules(schedule):
+        keys = verdict_keys(world, sub)
+        if key in keys or (keys and all(c is not None for _s, c in sub)):
+            return False
+    return True
 
 
 def nontrivial(world, schedule):
@@ -959,29 +966,32 @@ def _work(job):
     for schedule in schedules_of(world, k, cancel_modes, prefix):
         st["sched"] += 1
         nt = nontrivial(world, schedule)
+        results = []
         for variant in variants(world, schedule):
             c, viol, obs, trans = execute(world, schedule, variant)
-            if len(schedule) < 3:
-                _VERDICTS[(world, schedule, variant)] = frozenset(key for key, _d in viol)
+            results.append((variant, c, viol, obs))
             st["exec"] += 1
             st["trans"] += trans
             st["outcomes"].add(obs)
             if nt:
                 st["nontriv"] += 1
-            for key, desc in viol:
-                if not is_minimal(world, schedule, variant, key):
-                    st["non_minimal"] += 1
-                    continue
-                fp = fingerprint(schedule, key)
-                if fp not in st["viol"]:
-                    _c2, viol2, obs2, _t2 = execute(world, schedule, variant)
-                    if obs2 != obs or key not in [k2 for k2, _d2 in viol2]:
-                        raise RuntimeError(f"C06 harness: re-running {schedule} ({variant}) gave a different observation")
-                    st["viol"][fp] = (desc, {"driver": world, "schedule": schedule, "variant": variant,
-                                             "key": key})
             if len(st["samples"]) < 1 and st["exec"] % 53 == 1:
                 st["samples"].append({"world": world, "schedule": schedule, "variant": variant,
                                       "violated": [key for key, _d in viol], "outcome": c.outcome})
+        if len(schedule) < 3:
+            _VERDICTS[(world, schedule)] = frozenset(key for _v, _c, viol, _o in results for key, _d in viol)
+        for variant, c, viol, obs in results:
+            for key, desc in viol:
+                fp = fingerprint(schedule, key)
+                if fp in st["viol"]:
+                    continue
+                if not is_minimal(world, schedule, key):
+                    st["non_minimal"] += 1
+                    continue
+                _c2, viol2, obs2, _t2 = execute(world, schedule, variant)
+                if obs2 != obs or key not in [k2 for k2, _d2 in viol2]:
+                    raise RuntimeError(f"C06 harness: re-running {schedule} ({variant}) gave a different observation")
+                st["viol"][fp] = (desc, {"driver": world, "schedule": schedule, "variant": variant, "key": key})
     return st
 
 
@@ -1016,7 +1026,7 @@ def run_driver(run, world, kmax, cancel_by_k, seed):
             d.samples.extend(st["samples"])
     d.states = len(outcomes)
     d.outcomes = len(outcomes)
-    d.extra["violations_folded_into_smaller_schedule"] = nonmin
+    d.extra["violations_explained_by_a_smaller_schedule"] = nonmin
     d.wall_s = time.time() - t0
 
 
